@@ -146,7 +146,7 @@ def render_teal(teal, cap):
     for s in [teal.main] + list(teal.subroutines.values()):
         out.append(f"sub {penc(s.name)} entry={s.entry.idx} blocks={nl(x.idx for x in s.blocks)} exits={nl(x.idx for x in s.exit_blocks)} "
                    f"callers={nl(x.idx for x in s.caller_blocks)} retpoints={nl(x.idx for x in s.return_point_blocks)}")
-    out.append("intcs " + (nl(teal._int_constants) if teal._int_constants else "none"))
+    out.append("intcs " + (nl(teal._int_constants) if teal._int_constants else "none"))  # [] and unset are the same to get_int_constant
     out.append(f"version {teal.version}")
     out.append(f"live {nl(b.idx for b in teal.bbs)}")
     return out
@@ -179,7 +179,7 @@ def block_keys(function):
 
 def render_function(function, keys):
     out = [f"fentry {keys[function.entry]}"]
-    K = lambda b: keys.get(b, 'X%d' % b.idx)
+    K = lambda b: keys.get(b, b.idx + SUB_OFF)
     for b in function.blocks:
         out.append(f"fblock {keys[b]} idx={b.idx} sub={penc(b.subroutine.name)} n={len(b.instructions)} "
                    f"next={nl(K(x) for x in b.next)} prev={nl(K(x) for x in b.prev)}")
@@ -296,9 +296,28 @@ def run_detectors(teal, function):
             out.append(f"err detect {name} {exc_name(e)}")
     return out
 
+class AnalysisFailed(Exception):
+    def __init__(self, fn, exc):
+        self.fn, self.exc = fn, exc
+
 def construct_function_traced(teal, path):
-    """construct_function, remembering the dispatch path blocks for error-block numbering"""
-    fn = PF.construct_function(teal, path)
+    """construct_function, remembering the dispatch path blocks for error-block numbering.
+    Raises AnalysisFailed(fn, exc) when the function was built but the dataflow analysis raised."""
+    orig = PF._apply_transaction_context_analysis
+    box = {}
+    def wrapped(function):
+        box['fn'] = function
+        try:
+            orig(function)
+        except Timeout:
+            raise
+        except BaseException as e:
+            box['exc'] = e
+    PF._apply_transaction_context_analysis = wrapped
+    try:
+        fn = PF.construct_function(teal, path)
+    finally:
+        PF._apply_transaction_context_analysis = orig
     # recover the dispatch path blocks by following idx from the entry
     pb = []
     cur = [fn.entry]
@@ -311,6 +330,8 @@ def construct_function_traced(teal, path):
     except Exception:
         pass
     fn._verif_path_blocks = pb
+    if 'exc' in box:
+        raise AnalysisFailed(fn, box['exc'])
     return fn
 
 def analyse_source(src, path=("B0",), want=("teal", "func", "ast", "ctx", "paths"), limit=30):
@@ -327,17 +348,23 @@ def analyse_source(src, path=("B0",), want=("teal", "func", "ast", "ctx", "paths
             toks = [enc_ins(i) for i in cap.instructions]
             if "teal" in want:
                 lines += render_teal(teal, cap)
+            failed = None
             try:
                 buf = io.StringIO()
                 with contextlib.redirect_stdout(buf), contextlib.redirect_stderr(buf):
                     fn = construct_function_traced(teal, list(path))
+            except AnalysisFailed as af:
+                fn, failed = af.fn, af.exc
             except BaseException as e:
                 if isinstance(e, Timeout): raise
-                lines.append(f"err func+analyse {exc_name(e)}")
+                lines.append(f"err func {exc_name(e)}")
                 return toks, lines
             keys = block_keys(fn)
             if "func" in want: lines += render_function(fn, keys)
             if "ast" in want: lines += render_asts(fn, keys)
+            if failed is not None:
+                lines.append(f"err analyse {exc_name(failed)}")
+                return toks, lines
             if "ctx" in want: lines += render_contexts(fn, keys)
             if "paths" in want: lines += run_detectors(teal, fn)
     except Timeout:
